@@ -263,3 +263,89 @@ func c11EmuCompleteAfterData(r *Run, rng *Rng) {
 func init() {
 	register("C11", func(r *Run, rng *Rng, _ string) { c11EmuCompleteAfterData(r, rng) })
 }
+
+// c11OwnerScenario: every DMA request of a copy goes to the GPU whose memory contains its physical
+// address — also when two consecutive virtual pages sit on the LAST physical page of one GPU and the
+// FIRST physical page of the next (physically adjacent, different owners).
+func c11OwnerScenario(r *Run, rng *Rng) {
+	ps := uint64(4096)
+	pagesPerGPU := uint64(rng.Pick(2, 4, 4, 8))
+	d := driver.MakeBuilder().WithEngine(&fakeEngine{}).WithPageTable(vm.NewPageTable(12)).WithLog2PageSize(12).Build("Driver")
+	gpuPort := d.GetPortByName("GPU")
+	(&fakeConn{name: "c"}).PlugIn(gpuPort)
+	n := rng.Range(2, 3)
+	names := []sim.RemotePort{}
+	for i := 0; i < n; i++ {
+		cp := sim.NewPort(nil, 64, 64, fmt.Sprintf("FakeGPU%d.ToDriver", i+1))
+		d.RegisterGPU(cp, driver.DeviceProperties{CUCount: 4, DRAMSize: pagesPerGPU * ps})
+		names = append(names, cp.AsRemote())
+	}
+	ctx := d.Init()
+	q := d.CreateCommandQueue(ctx)
+	k := rng.Range(1, n-1) // boundary between GPU k and GPU k+1
+	desc := fmt.Sprintf("%d GPUs x %d pages; buffer page 0 on the last page of GPU %d, page 1 on the first page of GPU %d", n, pagesPerGPU, k, k+1)
+	fault := catch(func() {
+		d.SelectGPU(ctx, k)
+		if pagesPerGPU > 1 {
+			d.AllocateMemory(ctx, (pagesPerGPU-1)*ps) // GPU k keeps exactly one free page: its last
+		}
+		d.SelectGPU(ctx, k+1)
+		buf := d.AllocateMemory(ctx, 2*ps) // both pages on GPU k+1 (its first two pages)
+		d.Remap(ctx, uint64(buf), ps, k)   // page 0 moves to GPU k's last page
+		off := uint64(rng.Pick(0, 0, 64, 4000))
+		l := 2*ps - off
+		if rng.Bool() {
+			d.EnqueueMemCopyH2D(q, driver.Ptr(uint64(buf)+off), make([]byte, l))
+		} else {
+			d.EnqueueMemCopyD2H(q, make([]byte, l), driver.Ptr(uint64(buf)+off))
+		}
+		for i := 0; i < 400 && q.NumCommand() > 0; i++ {
+			d.Tick()
+			for {
+				m := gpuPort.RetrieveOutgoing()
+				if m == nil {
+					break
+				}
+				var addr uint64
+				switch c := m.(type) {
+				case *protocol.MemCopyH2DReq:
+					addr = c.DstAddress
+				case *protocol.MemCopyD2HReq:
+					addr = c.SrcAddress
+				default:
+					continue
+				}
+				owner := d.VerifDeviceIDByPAddr(addr)
+				r.Checked("dma-owner")
+				r.Count(fmt.Sprintf("owner.req.gpu%d", owner))
+				if owner < 1 || owner > n || m.Meta().Dst != names[owner-1] {
+					r.Failf("C11.copy.sent-to-wrong-gpu", desc, "copy request for physical address %x (owned by GPU %d) was sent to %s", addr, owner, m.Meta().Dst)
+				}
+				rsp := sim.GeneralRspBuilder{}.WithSrc(m.Meta().Dst).WithDst(gpuPort.AsRemote()).WithOriginalReq(m).Build()
+				for gpuPort.Deliver(rsp) != nil {
+					d.Tick()
+				}
+			}
+		}
+		if q.NumCommand() > 0 {
+			r.Failf("C11.copy.owner-scenario-stuck", desc, "copy did not complete")
+		}
+	})
+	if fault != "" {
+		r.Note("c11 owner scenario skipped: %s", fault)
+		return
+	}
+	r.Count("owner.scenario")
+}
+
+func init() {
+	register("C11", func(r *Run, rng *Rng, _ string) {
+		n := 40
+		if r.Tier == "thorough" {
+			n = 600
+		}
+		for i := 0; i < n; i++ {
+			c11OwnerScenario(r, rng)
+		}
+	})
+}
